@@ -27,7 +27,7 @@ ASSUMPTIONS = [
     "acceptance threshold 0.1 (the optimizer default)",
     "kappa(A+dI) <= 1e8 by construction; float32 inputs are checked structurally only",
 ]
-DECIDING = ["calls", "residual_checked", "padding_checked", "symmetry_checked", "maxev_checked"]
+DECIDING = ["calls", "residual_checked", "padding_checked", "symmetry_checked", "maxev_checked", "calls_insitu"]
 MIN_NONTRIVIAL = 100
 TIMEOUT = {"quick": 1200, "thorough": 7200}
 THRESH = 0.1
@@ -45,6 +45,9 @@ def shards(tier, seed):
                 "budget_s": 900 if tier == "quick" else 6000})
   out.append({"name": "direct32", "env": {"x64": False}, "kind": "direct", "N": [3, 7, 12], "per": per,
               "budget_s": 900 if tier == "quick" else 6000})
+  for i in range(4):
+    out.append({"name": "insitu%d" % i, "env": {"x64": True}, "kind": "insitu", "n": 6 if tier == "quick" else 80,
+                "budget_s": 900 if tier == "quick" else 6000})
   return out
 
 
@@ -206,11 +209,14 @@ def check_call(c, X, metrics, rec, wit, in_dtype, compute_f64, source="direct"):
     rec.count("nan_error_reported")
     return
   if err < THRESH:
-    if in_dtype != "float64" or not compute_f64:
+    if not compute_f64 or (in_dtype != "float64" and kappa > 1e4):
       rec.count("accepted_structural_only")
       return
     res = R.residual(Xr, A, d, p)
-    slack = 64 * n * p * u * kappa + extra + err * 2.0 ** -22   # reported figure is a float32
+    # float32 inputs computed in float64: the root is rounded to float32 on return, u = 2^-24
+    slack = 64 * n * p * (u if in_dtype == "float64" else 2.0 ** -24) * kappa + extra + err * 2.0 ** -22   # reported figure is a float32
+    if in_dtype != "float64":
+      rec.count("residual_checked_float32_output")
     rec.count("residual_checked")
     rec.count("residual_checked_" + c["method"])
     rec.maxi("res_minus_err_over_slack", (res - err) / slack)
@@ -259,7 +265,61 @@ def check_direct(c, rec, x64):
   check_call(cc, np.asarray(X), metrics, rec, wit, in_dtype, compute_f64=x64)
 
 
+def run_insitu(spec, rec):
+  """Taps every inverse-root call made inside real optimizer runs (harness-side rebinding, no source edit)."""
+  import jax
+  import jax.numpy as jnp
+  from precondition import distributed_shampoo as ds
+  from vmon import dsharness as H
+  from vmon.monitors import c02
+  events = []
+  orig = ds.matrix_inverse_pth_root
+  state = {"cfg": None}
+
+  def tapped(matrix, p, *a, **kw):
+    X, m = orig(matrix, p, *a, **kw)
+
+    def cb(matrix, p, X, err, retries, mev, ps):
+      events.append((np.asarray(matrix), int(p), np.asarray(X), float(err), float(retries), float(mev), int(ps)))
+    jax.debug.callback(cb, matrix, p, X, m.inverse_pth_root_errors, m.total_retries, m.max_eigen_value, kw.get("padding_start"))
+    return X, m
+  ds.matrix_inverse_pth_root = tapped
+  try:
+    rng = util.rng_for(spec["seed"], PROPERTY, spec["name"])
+    for i in range(spec["n"]):
+      if time.time() > rec.deadline:
+        rec.count("dropped_for_budget", spec["n"] - i)
+        break
+      case = c02.gen_case(rng)
+      case["mode"] = "jit"
+      cfgd = case["cfg"]
+      params, hist = c02.materialize(case)
+      try:
+        runner = H.Runner(cfgd, params, "jit", 1)
+        for g in hist:
+          runner.step(g)
+          jax.effects_barrier()
+      except Exception as e:  # pylint: disable=broad-except
+        rec.skip("insitu-run-raised:%s" % type(e).__name__)
+        events.clear()
+        continue
+      rec.count("insitu_runs")
+      for (M, p, X, err, retries, mev, ps) in events:
+        N = M.shape[0]
+        n = ps
+        A = np.asarray(M[:n, :n], np.float64)
+        c = {"N": N, "n": n, "pad": N - n, "p": p, "eps": cfgd["matrix_epsilon"], "rel": cfgd["relative_matrix_epsilon"],
+             "method": "eigh" if cfgd["eigh"] else "newton", "k": 0, "family": "insitu", "A": A}
+        wit = {"insitu": True, "case": case, "p": p, "padding_start": ps, "matrix": M}
+        check_call(c, X, {"err": err, "retries": retries, "max_ev": None if cfgd["eigh"] else mev}, rec, wit, "float32", True, source="insitu")
+      events.clear()
+  finally:
+    ds.matrix_inverse_pth_root = orig
+
+
 def run(spec, rec):
+  if spec.get("kind") == "insitu":
+    return run_insitu(spec, rec)
   import jax
   x64 = bool(jax.config.jax_enable_x64)
   rng = util.rng_for(spec["seed"], PROPERTY, spec["name"])
@@ -280,4 +340,14 @@ def run(spec, rec):
 def replay(witness, rec):
   import jax
   w = util.dec(witness)
+  if w.get("insitu"):
+    # re-execute the tapped call directly on the recorded input matrix
+    cfgd = w["case"]["cfg"]
+    M = np.asarray(w["matrix"])
+    n = int(w["padding_start"])
+    c = {"N": M.shape[0], "n": n, "pad": M.shape[0] - n, "p": int(w["p"]), "eps": cfgd["matrix_epsilon"],
+         "rel": cfgd["relative_matrix_epsilon"], "method": "eigh" if cfgd["eigh"] else "newton", "k": 0,
+         "family": "insitu", "A": np.asarray(M[:n, :n], np.float64), "in_dtype": "float32", "force_ps": True}
+    check_direct(c, rec, bool(jax.config.jax_enable_x64))
+    return
   check_direct(w, rec, bool(jax.config.jax_enable_x64))
